@@ -569,8 +569,10 @@ def install(mdl, production_names=None):
         name = ci.name
         if name in NOM_CTORS:
             arg = a[0] if a else None
-            if type(arg) is str or arg is None or isinstance(arg, AbsStr) or type(arg) is Char or type(arg) is int:
-                return parser(NOM_CTORS[name], arg)
+            if type(arg) is Ref and type(arg.get()) in (Closure, FnItem):
+                arg = arg.get()
+            if type(arg) is str or arg is None or isinstance(arg, AbsStr) or type(arg) in (Char, int, Closure, FnItem):
+                return parser(NOM_CTORS[name], arg)       # predicates (closures / fn items) are kept: Engine L evaluates them
             return parser(NOM_CTORS[name], None)
         if name in NOM_COMB1:
             return parser(name, a[0])
@@ -739,8 +741,8 @@ def install(mdl, production_names=None):
                 return some(Ref([b], 0)) if nm in ('first', 'get', 'peek') else some(b)
             if nm == 'count' and not st['pos']:
                 n = st['frag'].n
-                if not st.get('chars'):
-                    return n
+                if not st.get('chars') or it.env.get('lex') is not None:
+                    return n      # lexical mode counts in symbols of the alphabet: characters and bytes coincide
                 # number of characters of a string of n bytes: between n/4 and n (equal for ASCII text only)
                 c = gs(it).fresh('charcount')
                 it.assume(z3.And(c >= 0, c <= n, 4 * c >= n))
